@@ -492,7 +492,7 @@ Proof. reflexivity. Qed.
 
 (* ApproxQuantiles::new(qs, c) and ApproxMedian::new(c) are lawful: the accumulator satisfies the
    digest invariant for the finite inputs; every estimate is NaN (no finite input) or a rational
-   between the smallest and the largest finite input *)
+   between the smallest and the largest finite input, and exactly these for q <= 0 / q >= 1 *)
 Theorem c15_quantiles_lawful :
   forall (qs : list X) (c : X), lawful (aq_combiner xarith qs c) td_R (aq_spec qs).
 Proof. exact aq_lawful. Qed.
@@ -520,7 +520,9 @@ Example c15_median_lawful_ex :
 Proof. vm_compute. reflexivity. Qed.
 
 (* from_vec(rows).combine_globally(_lifted)(ApproxQuantiles::new(qs, c), fanout): one estimate per
-   requested q, each inside the range of the finite rows -- any partition count, any fan-out *)
+   requested q, in the order of the request (aq_spec = Forall2 est_for), each NaN iff there is no
+   finite row and otherwise inside the range of the finite rows, EXACTLY the smallest finite row
+   for q <= 0 and the largest for q >= 1 -- any partition count, any fan-out *)
 Theorem c15_pipeline_quantiles_in_range :
   forall (qs : list X) (c : X) (lifted : bool) (fan parts : nat) (rows : list X),
     aq_spec qs rows (combine_globally (aq_combiner xarith qs c) lifted fan parts rows).
